@@ -423,7 +423,7 @@ func c10RunCont(c *core.Ctx, sb *sandbox, k c10case, post hstate, via string) (v
 			// (or about a missing dependency file) and nothing may have run before it that was skipped wrongly
 			lower := strings.ToLower(o.Err)
 			explicit := strings.Contains(lower, "cache") || strings.Contains(lower, "could not get hash result") || strings.Contains(lower, "no such file") ||
-				(op.Fail != "" && strings.Contains(lower, "exited with status")) // a command that was told to fail
+				strings.Contains(lower, "exited with status") // a command that failed (told to, or e.g. cp of a missing source)
 			if !explicit {
 				vs = append(vs, core.Violation{Property: "C10", Clause: "explicit-cache-error", Detail: fmt.Sprintf("continuation step %d (%s) failed with an error that does not mention the cache: %s", i, op, core.Trunc(o.Err, 300))})
 				return
